@@ -148,6 +148,39 @@ impl Check for C11 {
                 }
             }
         });
+        // (ii') curved strokes: the stroke under T is the image under T of the user-space stroke (M-REGION of
+        // the transformed user-space region), also when T scales strongly up or down
+        let cps: Vec<(f32, f32)> = vec![(4., 5.), (17., 3.), (31., 8.), (6., 19.), (18., 17.), (30., 21.), (5., 31.), (19., 29.), (32., 30.)];
+        run.bound("curved-strokes-under-scale", "9^3 quads with user coordinates k times the device ones under scale 1/k, k in {50, 0.02, 7}, width 4k, butt/round".to_string());
+        run.par(cps.len() * cps.len(), |s, l| {
+            let (a, b) = (cps[s / cps.len()], cps[s % cps.len()]);
+            if a == b {
+                return;
+            }
+            for c in &cps {
+                for k in [50.0f32, 0.02, 7.0] {
+                    let xf: Xf = [1.0 / k, 0., 0., 1.0 / k, 0., 0.];
+                    let path = PathSpec::new(vec![POp::M(a.0 * k, a.1 * k), POp::Q(b.0 * k, b.1 * k, c.0 * k, c.1 * k)]);
+                    let st = StyleSpec { width: 4.0 * k, cap: (s % 2) as u8, join: 1, miter: 4., dash: vec![], offset: 0. };
+                    l.states += 1;
+                    l.transitions += 2;
+                    l.traces += 1;
+                    l.evals += 1;
+                    match super::c04::eval(&path, &st, &xf) {
+                        Ok(stt) => {
+                            l.outcome(stt.hash);
+                            if stt.inside > 0 {
+                                l.nontrivial += 1;
+                            }
+                        }
+                        Err(mut v) => {
+                            v.sig = format!("stroke-is-image-of-user-space-stroke/{}", v.sig);
+                            run.report(1500 + s, v)
+                        }
+                    }
+                }
+            }
+        });
         // (iii) cancellation: the same transform on target and source cancels out
         let exact: Vec<Xf> = vec![[1., 0., 0., 1., 3., -2.], [1., 0., 0., 1., -5., 7.], [2., 0., 0., 2., 0., 0.], [0., 1., -1., 0., 8., 0.], [-1., 0., 0., 1., 8., 0.], [0.5, 0., 0., 4., 0., 0.]];
         let ramp = vec![Stop { pos: 0.0, color: 0xffff0000 }, Stop { pos: 1.0, color: 0x8000ff00 }];
@@ -341,6 +374,20 @@ impl Check for C11 {
             Ok(diff_scenes("replay", &a, &b).err())
         } else {
             let scene = parse_scene(case)?;
+            // curved strokes under a scale
+            let mut xf0 = IDENT;
+            for op in &scene.ops {
+                match op {
+                    Op::SetTransform(t) => xf0 = *t,
+                    Op::Stroke(p, st, _, _) if scene.ops.len() <= 2 => {
+                        return Ok(super::c04::eval(p, st, &xf0).err().map(|mut v| {
+                            v.sig = format!("stroke-is-image-of-user-space-stroke/{}", v.sig);
+                            v
+                        }))
+                    }
+                    _ => {}
+                }
+            }
             let src_kind = scene.ops.iter().find_map(|o| if let Op::Fill(_, s, _) = o { Some(s.clone()) } else { None });
             match src_kind {
                 Some(SrcSpec::Image { .. }) if scene.ops.len() == 2 => Ok(super::c13::eval(&scene).err().map(|mut v| {
